@@ -40,7 +40,7 @@ def build(rng, profile="full", **kw):
         if syntax == "itp":
             # itp syntax has no version tags: one interaction per (section, atoms); impropers share [dihedrals]
             _dedupe_itp(b)
-        if rng.random() < kw.get("p_resnr_offset", 0.0):
+        if rng.random() < kw.get("p_resnr_offset", 0.1):
             # the residue-number column of a block need not start at 1 (a fragment cut out of a larger molecule)
             b["resnr_offset"] = rng.choice([1, 2, 6])
         blocks.append(b)
@@ -74,7 +74,7 @@ def build(rng, profile="full", **kw):
         k = rng.randint(2, 3)
         rn = [rng.choice(["MX", "MY", "MZ"]) for _ in range(k)]
         multi = FF.gen_multi_block(rng, "MULTI", rn)
-        if rng.random() < kw.get("p_resnr_offset", 0.0):
+        if rng.random() < kw.get("p_resnr_offset", 0.1):
             multi["resnr_offset"] = rng.choice([1, 2, 6])
         blocks.append(multi)
 
